@@ -262,6 +262,9 @@ def run_check(prop, tier, seed):
             # these properties are about the whole expansion: their projection is the token stream
             stats["k_break"] += 1
             kbreak.append((cid, "token stream of real and model expansion differ (correspondence K_%s)" % prop))
+        if prop in ("C17", "C20") and d.get("real") == "ok" and d.get("tok") == "1" and c is not None:
+            # non-trivial: the real macro expanded the case and the expansion equals the model's token for token
+            nontrivial.add((c[1], c[2], c[3]))
         trip = d.get(prop)
         if trip:
             k, pm, pr = trip[0], trip[1], trip[2]
